@@ -1,3 +1,4 @@
+import json
 import pathlib
 
 from pyrtma.parser import (
@@ -111,7 +112,9 @@ class MatlabDefCompiler:
         )
 
     def generate_constant_string(self, c: ConstantString):
-        return self.generate_field("defines", self.sanitize_name(c.name), c.value)
+        # matlab string literals have no backslash escapes, a quote is written twice
+        text = json.loads(c.value).replace('"', '""')
+        return self.generate_field("defines", self.sanitize_name(c.name), f'"{text}"')
 
     def generate_host_id(self, hid: HID) -> str:
         return self.generate_field("HID", self.sanitize_name(hid.name), hid.value)
